@@ -56,4 +56,15 @@ PROPS = {
  "C16": dict(level="fault_enumeration", stages=h3(25000, 400000),
    rule="evbuffer_read / evbuffer_write(_atmost) on a real socketpair with the first system-call result of each call scripted: a byte limit from 1..request, EINTR, EAGAIN, ECONNRESET/EPIPE, FIONREAD lying high/low/failing; buffer shapes come from the surrounding random calls (many chains, references, file segments, reserved space); non-trivial when a partial transfer happened; distinct = distinct trace hashes among non-trivial runs",
    components=dict(real=REAL_BUF, simulated=SIM_BUF, stubbed=[]), assumptions=ASSUME_BUF + ["first-result positions are sampled per call, not enumerated exhaustively"], expected_probes=[]),
+ "C04": dict(level="exploration", stages=lambda tier: [dict(name="h_io", harness="h_io", count=100000 if tier == "quick" else 1500000)],
+   rule="plans of 5-45 (thorough 10-120) ops over 1-5 real fd pairs (AF_UNIX stream pairs, pipes in both directions) driven into data / full-send-buffer / half-closed / closed / reopened-same-number states, several events per fd with overlapping interests, LT and ET, on epoll, epoll+changelist, poll, select (30% of plans run on all four in one run); every callback is compared with an independent poll(2) probe taken at the wait (must/may sets); non-trivial when >= 3 callbacks were compared or one on an fd in a hang-up / error / full state; distinct = distinct trace hashes among non-trivial runs",
+   components=dict(real=REAL_CORE + ["the Linux kernel's pipes, AF_UNIX sockets, epoll, poll, select"], simulated=SIM_COMMON, stubbed=[]), assumptions=ASSUME_R + ["loopback TCP is not used: AF_UNIX pairs and pipes only"],
+   expected_probes=["peer-half-closed", "peer-closed", "fd-number-reused", "send-buffer-full"]),
+ "C05": dict(level="exploration", stages=lambda tier: [dict(name="h_io", harness="h_io", count=100000 if tier == "quick" else 1500000)],
+   rule="add/del-heavy plans over 1-10 fds with close-and-reopen of the same fd number between waits; at every wait the kernel's own registration list (/proc/self/fdinfo/<epfd> for epoll, the pollfd array / fd_sets for poll and select) restricted to harness fds must equal the union of the added events; non-trivial when >= 2 different interest sets were compared in the run; distinct = distinct trace hashes among non-trivial runs",
+   components=dict(real=REAL_CORE + ["the Linux kernel's epoll registration list as shown by /proc/self/fdinfo"], simulated=SIM_COMMON, stubbed=[]), assumptions=ASSUME_R, expected_probes=["fd-number-reused"]),
+ "C07": dict(level="exploration", stages=lambda tier: [dict(name="h_io", harness="h_io", count=40000 if tier == "quick" else 600000)],
+   rule="plans with several events on SIGUSR1/SIGUSR2/SIGWINCH, raise() bursts between loop calls, adds and deletes between deliveries (also from inside the callback), self-pipe and signalfd mechanisms on all four backends, base freed with signal events still added; a recognisable sigaction is installed before the first add and compared bit for bit after the last delete / event_base_free; non-trivial when >= 1 delivery and >= 1 ledger or disposition comparison happened; distinct = distinct trace hashes among non-trivial runs",
+   components=dict(real=REAL_CORE + ["real signals delivered with raise() from the single simulator thread"], simulated=SIM_COMMON, stubbed=[]), assumptions=ASSUME_R + ["raise() delivers an unblocked signal before it returns (same thread)"],
+   expected_probes=["last-signal-event-deleted", "base-freed-with-signal-events-added", "signal-event-deleted-in-its-callback"]),
 }
